@@ -54,6 +54,9 @@ def truth_restart(spec, r):
     out['var available'] = set(reading.transform_vars_ET_to_aurel_groups(
         list(rs.get('vars', spec['vars']))))
     allits = sorted({i for its in rs['its'].values() for i in its})
+    if not allits:          # only checkpoints were written: they are what can be read
+        ck = sorted(rs.get('checkpoints', []))
+        return {'checkpoints': ck, 'its available': [ck[0], ck[-1]]} if ck else {}
     out['its available'] = [min(allits), max(allits)]
     for rl, its in rs['its'].items():
         its = sorted(its)
@@ -93,6 +96,8 @@ def norm_content(c):
 
 def truth_content(spec, r):
     groups = {}
+    if not any(spec['restarts'][r]['its'].values()):
+        return {}            # no 3D output files in this restart
     nb = len(spec['levels'][min(spec['levels'])]['boxes'])
     for v in spec['restarts'][r].get('vars', spec['vars']):
         base = etgen.file_base(v, spec['grouped'], spec.get('custom_group'))
@@ -140,10 +145,13 @@ def gen_cat_spec(seed):
         if nlev >= 2 and length and rng.random() < 0.25:
             k = int(rng.integers(1, max(2, len(its[nlev - 1]) - 1)))
             its[nlev - 1] = its[nlev - 1][k:] or its[nlev - 1][-1:]
+        if r and nres > 2 and rng.random() < 0.12:
+            # a restart that wrote checkpoints but no 3D output at all
+            its = {rl: [] for rl in range(nlev)}
         rs = dict(its=its, rtag=r + 1)
         if grow and spec['grouped'] and r < nres // 2:
             rs['vars'] = [v for v in spec['vars'] if v != 'tau']
-        if rng.random() < 0.6:
+        if rng.random() < 0.6 or not its[nlev - 1]:
             pool = list(range(start, start + length * bs + 1, bs))
             rs['checkpoints'] = sorted({int(v) for v in rng.choice(pool, int(rng.integers(1, 3)))})
             rs['chk_proc'] = bool(rng.random() < 0.4)
@@ -266,7 +274,11 @@ def run_catalogue(spec0, res):
             got = norm_cat(last)
             for r, entry in got.items():
                 want = truth_restart(spec, int(r))
-                if not spec['restarts'][int(r)]['its'].get(min(spec['levels'])):
+                if not any(spec['restarts'][int(r)]['its'].values()):
+                    # nothing but (possibly) checkpoints may be reported
+                    entry = {k: v for k, v in entry.items() if v not in ([], set(), None)}
+                    want = {k: v for k, v in want.items() if v}
+                elif not spec['restarts'][int(r)]['its'].get(min(spec['levels'])):
                     continue
                 if entry != want:
                     dk = [k for k in set(entry) | set(want) if entry.get(k) != want.get(k)]
